@@ -86,6 +86,12 @@ func runC04(c *Ctx) {
 	defer func() { runChildJobs(c, jobs) }()
 	for i := 0; i < n; i++ {
 		fam := fams[i%len(fams)]
+		if i%3 == 1 {
+			// cycles through parameters, responses and path items (such documents have no meaning, but expanding
+			// them must still terminate)
+			fam.opts.Elements, fam.opts.ElementCycles = true, true
+			fam.name += "+element-cycles"
+		}
 		w := refgraph.Generate(c.Rng, fam.opts)
 		flavour := idFlavours[(i/len(fams))%len(idFlavours)]
 		w = withIDs(c, w, flavour)
@@ -112,6 +118,10 @@ func runC04(c *Ctx) {
 		}
 		sort.Strings(refused)
 		spec0 := entryCall{Entry: "spec", Skip: o.Skip, Cont: o.Continue, Abs: o.Absolute, Refuse: refused}
+		if strings.HasPrefix(w2.Root, "http://h.example/") && i%2 == 0 {
+			// an equivalent, non-canonical spelling of an http root location: upper-case host, explicit default port
+			spec0.Base = "HTTP://H.Example:80/" + strings.TrimPrefix(w2.Root, "http://h.example/")
+		}
 		calls := []entryCall{spec0}
 		for j, el := range rootElements(w2, "definitions", "schemaWithBase") {
 			if j < 2 {
@@ -217,7 +227,16 @@ func runChildJobs(c *Ctx, jobs []childJob) {
 	for i, j := range jobs {
 		hcs[i] = j.hc
 	}
-	outs := runChildren(hcs, 6*time.Second)
+	outs := runChildren(hcs, 8*time.Second)
+	// a child killed by the watchdog while twelve of them share the machine may just have been slow: give it
+	// the machine for itself before calling it a hang
+	for i := range outs {
+		if outs[i].killed && !jobs[i].known {
+			// (worlds of the K-C04-1 shape are expected to run away: no second, longer wait for those)
+			r, err, killed := isolatedTimed(hcs[i], 45*time.Second)
+			outs[i] = childOutcome{r, err, killed}
+		}
+	}
 	for i, j := range jobs {
 		sfx := ""
 		if j.known {
@@ -227,7 +246,7 @@ func runChildJobs(c *Ctx, jobs []childJob) {
 		entry := j.hc.Call.Entry
 		switch {
 		case o.killed:
-			c.Fail(Failure{Kind: "crash", Sig: "C04:hang" + sfx, What: entry + " did not return within 6 s (child process killed)", Case: j.cs})
+			c.Fail(Failure{Kind: "crash", Sig: "C04:hang" + sfx, What: entry + " did not return within 8 s, nor within 45 s when run alone (child process killed)", Case: j.cs})
 		case o.err != nil:
 			c.Fail(Failure{Kind: "crash", Sig: "C04:panic" + sfx, What: entry + ": child process died: " + clip(o.err.Error()), Case: j.cs})
 		case o.r.Panic != "":
